@@ -312,3 +312,12 @@ pub fn lincode_proof_variants<F: PrimeField, C: Config, T: CanonicalSerialize + 
     }
     out.into_iter().filter_map(|(n, q)| to_mirror::<_, T>(&q).map(|t| (n, t))).collect()
 }
+
+/// mirror of `HyraxCommitmentState { randomness, mat: Matrix { n, m, entries } }`
+#[derive(CanonicalSerialize, CanonicalDeserialize)]
+pub struct HyraxStateMirror<F: PrimeField> {
+    pub randomness: Vec<F>,
+    pub n: usize,
+    pub m: usize,
+    pub entries: Vec<Vec<F>>,
+}
